@@ -25,7 +25,7 @@ pub struct X {
     owner_script: &'static str,
 }
 
-fn owner_scripts() -> Vec<(&'static str, Vec<Op>)> {
+pub fn owner_scripts() -> Vec<(&'static str, Vec<Op>)> {
     let o = H::Own(0);
     vec![
         ("join", vec![Op::Join(o)]),
